@@ -8,7 +8,6 @@
 from __future__ import annotations
 
 import collections
-import itertools
 import logging
 import operator
 import sys
@@ -48,7 +47,6 @@ from ampform.helicity.naming import (
     HelicityAmplitudeNameGenerator,
     NameGenerator,
     collect_spin_projections,
-    create_amplitude_base,
     create_amplitude_symbol,
     generate_transition_label,
     get_helicity_angle_symbols,
@@ -114,6 +112,15 @@ def _to_parameter_values(mapping: Mapping[sp.Basic, ParameterValue]) -> Paramete
     return ParameterValues(mapping)
 
 
+def _unfold_poolsums(expr: sp.Expr) -> sp.Expr:
+    """Write out all `.PoolSum` instances in an expression as explicit sums."""
+    new_expr = expr.evaluate() if isinstance(expr, PoolSum) else expr
+    for node in sp.postorder_traversal(new_expr):
+        if isinstance(node, PoolSum):
+            new_expr = new_expr.xreplace({node: node.evaluate()})
+    return new_expr
+
+
 @frozen
 class HelicityModel:
     intensity: PoolSum = field(validator=instance_of(PoolSum))
@@ -158,16 +165,7 @@ class HelicityModel:
         definitions with `amplitudes`.
         """
 
-        def unfold_poolsums(expr: sp.Expr) -> sp.Expr:
-            new_expr = expr
-            for node in sp.postorder_traversal(expr):
-                if isinstance(node, PoolSum):
-                    new_expr = new_expr.xreplace({node: node.evaluate()})
-            return new_expr
-
-        intensity = self.intensity.evaluate()
-        intensity = unfold_poolsums(intensity)
-        return intensity.xreplace(self.amplitudes)
+        return _unfold_poolsums(self.intensity).xreplace(self.amplitudes)
 
     def rename_symbols(
         self, renames: Iterable[tuple[str, str]] | Mapping[str, str]
@@ -462,20 +460,15 @@ class HelicityAmplitudeBuilder:
 
         amplitude = self.config.spin_alignment.formulate_amplitude(self.reaction)
         spin_projections = collect_spin_projections(self.reaction)
-        self.__define_missing_amplitudes(spin_projections)
-        return PoolSum(sp.Abs(amplitude) ** 2, *spin_projections.items())
+        intensity = PoolSum(sp.Abs(amplitude) ** 2, *spin_projections.items())
+        self.__define_missing_amplitudes(intensity)
+        return intensity
 
-    def __define_missing_amplitudes(
-        self, spin_projections: dict[sp.Symbol, set[sp.Rational]]
-    ) -> None:
+    def __define_missing_amplitudes(self, intensity: PoolSum) -> None:
         """Set amplitudes to zero for helicity combinations without transition."""
-        pools = [sorted(values) for values in spin_projections.values()]
-        for topology in group_by_topology(self.reaction.transitions):
-            base = create_amplitude_base(topology)
-            for helicities in itertools.product(*pools):
-                symbol = base[helicities]
-                if symbol not in self.__ingredients.amplitudes:
-                    self.__ingredients.amplitudes[symbol] = sp.S.Zero
+        for symbol in sorted(_unfold_poolsums(intensity).atoms(sp.Indexed), key=str):
+            if symbol not in self.__ingredients.amplitudes:
+                self.__ingredients.amplitudes[symbol] = sp.S.Zero
 
     def __register_amplitudes(self, transition_group: list[StateTransition]) -> None:
         transition_by_topology = group_by_topology(transition_group)
